@@ -264,6 +264,7 @@ func navigate(root *JV, path []string) *JV {
 type shapeField struct {
 	Key  string   `json:"key"`
 	Fam  string   `json:"fam"`
+	RC   string   `json:"rc"` // coordinate of the runtime type's field
 	Name string   `json:"name"`
 	NN   []bool   `json:"nn"`
 	Leaf bool     `json:"leaf"`
@@ -440,7 +441,7 @@ func (s *shaper) obj(typeName string, sets []ast.SelectionSet, deferred bool) (s
 					return o, fmt.Errorf("response key %s merges different fields on %s", c.key, rt)
 				}
 			}
-			sf := shapeField{Key: c.key, Name: name, Fam: s.family(rt, name), NN: nnOf(fd.Type), Obj: shapeObj{V: []shapeVariant{}}}
+			sf := shapeField{Key: c.key, Name: name, Fam: s.family(rt, name), RC: rt + "." + name, NN: nnOf(fd.Type), Obj: shapeObj{V: []shapeVariant{}}}
 			if c.eager {
 				s.eager[sf.Fam] = true
 			}
@@ -478,11 +479,14 @@ func (s *shaper) obj(typeName string, sets []ast.SelectionSet, deferred bool) (s
 	return o, nil
 }
 
-func collectFams(o shapeObj, into map[string]bool) {
+func collectFams(o shapeObj, into map[string]bool, splits map[string]string) {
 	for _, v := range o.V {
 		for _, f := range v.Fields {
 			into[f.Fam] = true
-			collectFams(f.Obj, into)
+			if f.RC != f.Fam {
+				splits[f.RC] = f.Fam
+			}
+			collectFams(f.Obj, into, splits)
 		}
 	}
 }
@@ -530,7 +534,17 @@ func runShape(in, out string) {
 			fatal(fmt.Errorf("op %s: %v", op.ID, err))
 		}
 		used := map[string]bool{}
-		collectFams(so, used)
+		splitOf := map[string]string{}
+		collectFams(so, used, splitOf)
+		splits := []map[string]string{}
+		var splitKeys []string
+		for c := range splitOf {
+			splitKeys = append(splitKeys, c)
+		}
+		sort.Strings(splitKeys)
+		for _, c := range splitKeys {
+			splits = append(splits, map[string]string{"c": c, "fam": splitOf[c]})
+		}
 		var fams []string
 		for f := range used {
 			fams = append(fams, f)
@@ -545,7 +559,7 @@ func runShape(in, out string) {
 			}
 		}
 		w.write(map[string]any{"id": op.ID, "kind": string(o.Operation), "defer": strings.Contains(op.Text, "@defer"),
-			"shape": so, "fams": fams, "famcoords": coords, "deferfams": deferfams})
+			"shape": so, "fams": fams, "famcoords": coords, "deferfams": deferfams, "splits": splits})
 	})
 }
 
@@ -1027,8 +1041,10 @@ func forEachLine(path string, fn func([]byte)) {
 	}
 }
 
+func os_stderr() io.Writer { return os.Stderr }
+
 func main() {
-	mode := flag.String("mode", "run", "shape | run")
+	mode := flag.String("mode", "run", "shape | run | synth")
 	in := flag.String("in", "", "input NDJSON")
 	out := flag.String("out", "", "output NDJSON")
 	par := flag.Int("par", 8, "parallel engine configurations")
@@ -1041,6 +1057,8 @@ func main() {
 		runShape(*in, *out)
 	case "run":
 		runCases(*in, *out, *par)
+	case "synth":
+		runSynth(*in, *out)
 	default:
 		fatal(fmt.Errorf("unknown mode %q", *mode))
 	}
